@@ -92,6 +92,7 @@ def finish(prop: str, *, tier: str, seed: int, level: str, coverage: dict,
            violations: list, assumptions: list[str], t0: float,
            max_report: int = 25) -> int:
     """Dedupe by signature, split known / new, print, write evidence."""
+    max_report = int(os.environ.get('VERIF_MAX_REPORT', max_report))
     known = load_known()
     by_sig: dict = {}
     for v in violations:
